@@ -20,6 +20,31 @@ CHECKS = {
         note='Trusted: Lean kernel + standard axioms, harness/c15.py; scipy distributions are parameters (affine percent-point '
              'stubs); priors with zero free parameters are outside the domain (unit cube of dimension 0).',
         tech='Lean 4 proof + exhaustive differential of declaration words', ref='DESIGN.md §3 C15'),
+    'C01': dict(
+        text='Lean 4 theorem by induction over operations: in every state reachable by add_bound / add_samples (with transfers) / end of '
+             'exploration / discard toggles, each stored sample is in the cube, in its own shell bound, outside all later bounds, stored once; '
+             'model = line-by-line transcription of sampler.py bookkeeping, replayed against real sampler histories op by op.',
+        note='Trusted: Lean kernel + standard axioms; harness/corerec.py + corechecks.py (outside instrumentation, abstraction of the real state); numerics (bounds, networks, likelihood values) are oracles: theorems hold for every oracle answer subject to the stated hypotheses (WF = proposals fresh, in the cube and inside their bound, i.e. C07; PhaseOK/TPhase = phase discipline of run()).', tech='Lean 4 proof (invariant induction, arbitrary geometry oracle) + observed-oracle replay', ref='DESIGN.md §3 C01'),
+    'C02': dict(
+        text='Lean 4 theorems: array alignment, cached counts = visible samples, counts <= proposals in both views, for every run-shaped '
+             'history and every oracle; independent recomputation of log_z, n_eff, weights, shell volumes from the stored samples at every '
+             'operation boundary of real histories (tolerance 1e-8).',
+        note='Trusted: Lean kernel + standard axioms; harness/corerec.py + corechecks.py (outside instrumentation, abstraction of the real state); numerics (bounds, networks, likelihood values) are oracles: theorems hold for every oracle answer subject to the stated hypotheses (WF = proposals fresh, in the cube and inside their bound, i.e. C07; PhaseOK/TPhase = phase discipline of run()).', tech='Lean 4 proof (counting invariants) + replay + independent estimator recomputation', ref='DESIGN.md §3 C02'),
+    'C03': dict(
+        text='Lean 4 theorems: the three per-shell arrays stay aligned through every operation (no hypothesis), posterior rows are '
+             '(p, L(p), blob(p)) triples in storage order, each evaluation at most once; replay over evaluation modes with an instrumented '
+             'likelihood whose call log every returned row is checked against.',
+        note='Trusted: Lean kernel + standard axioms; harness/corerec.py + corechecks.py (outside instrumentation, abstraction of the real state); numerics (bounds, networks, likelihood values) are oracles: theorems hold for every oracle answer subject to the stated hypotheses (WF = proposals fresh, in the cube and inside their bound, i.e. C07; PhaseOK/TPhase = phase discipline of run()).', tech='Lean 4 proof (alignment refinement parallel arrays -> rows) + replay with instrumented likelihood', ref='DESIGN.md §3 C03'),
+    'C10': dict(
+        text='Lean 4 theorems: a successful step evaluates exactly n_batch proposed points and adds exactly that to the counter, nothing '
+             'else moves the counter, evaluated points are in the cube; real histories sliced by n_like_max from 0 upward check counter = '
+             'logged calls, one batch per step, budget and return value.',
+        note='Trusted: Lean kernel + standard axioms; harness/corerec.py + corechecks.py (outside instrumentation, abstraction of the real state); numerics (bounds, networks, likelihood values) are oracles: theorems hold for every oracle answer subject to the stated hypotheses (WF = proposals fresh, in the cube and inside their bound, i.e. C07; PhaseOK/TPhase = phase discipline of run()).', tech='Lean 4 proof (per-step accounting) + replay with call-logging likelihood', ref='DESIGN.md §3 C10'),
+    'C12': dict(
+        text='Lean 4 theorems: explored is monotone, sampling-phase operations freeze the bounds and only append (prefix relation on all '
+             'three arrays), shells non-empty after exploration, the discard setter touches only derived counts, shows exactly the '
+             'post-exploration rows, and off-on-off restores the state exactly; replay with toggles and bit-level snapshots.',
+        note='Trusted: Lean kernel + standard axioms; harness/corerec.py + corechecks.py (outside instrumentation, abstraction of the real state); numerics (bounds, networks, likelihood values) are oracles: theorems hold for every oracle answer subject to the stated hypotheses (WF = proposals fresh, in the cube and inside their bound, i.e. C07; PhaseOK/TPhase = phase discipline of run()).', tech='Lean 4 proof (phase/prefix invariants, setter algebra) + replay with toggles', ref='DESIGN.md §3 C12'),
     'C13': dict(
         text='Lean 4 theorems over all operation sequences and all oracle answers: the four per-ellipsoid records stay aligned '
              'and consistent, split members have >= n_points_min points, points are conserved (minus trimmed members), a '
@@ -38,7 +63,7 @@ CHECKS = {
         tech='Lean 4 proof + AST translator + scripted-RNG exact differential', ref='DESIGN.md §3 C14'),
 }
 
-READY = ['C13', 'C14', 'C15', 'C16']
+READY = ['C01', 'C02', 'C03', 'C10', 'C12', 'C13', 'C14', 'C15', 'C16']
 
 PENDING_REASON = 'check under construction in this build round; not yet registered (see DESIGN.md §6 build order)'
 
